@@ -253,6 +253,20 @@ def reportProblemsR (k : Nat) (tv : String → Vec) (t : T) (exact checkInner ti
   p1 ++ p2 ++ perNode
 
 
+/- ## rooting on a branch = a new node with one child on that branch (`subdivide`), then `rerootPath` onto it -/
+
+mutual
+/-- a node with a single child inserted on the branch above the node addressed by the path -/
+def subdivide : T → List Nat → T
+  | t, [] => t
+  | .node d p ks, i :: q => .node d p (subdivideL ks i q)
+def subdivideL : Kids → Nat → List Nat → Kids
+  | [], _, _ => []
+  | (e, c) :: r, 0, [] => (e, .node ⟨"", []⟩ 0 [(EdgeD.blank, c)]) :: r
+  | (e, c) :: r, 0, j :: q => (e, subdivide c (j :: q)) :: r
+  | x :: r, i + 1, q => x :: subdivideL r i q
+end
+
 /- ## problems with their kind (so that a known finding can be matched by KIND and by PLACE) -/
 
 inductive PKind where
